@@ -68,3 +68,18 @@ claim("C19",
  "Trusted: go/types; the rules are specific to the shape of alt/diff.go (located through the public functions Diff, Compare, Match).",
  "static analysis: control-dependence of early returns on recorded differences, dataflow of key sets, conversion-chain lint",
  "DESIGN.md §4 C19")
+claim("C05",
+ "Static decision of sibling clauses of Expr.Get: the cells (fragment kind x container type, located through the type switches) are reduced to an index-selection fingerprint and the copies for []any, gen.Array and Indexed (map, gen.Object, Keyed) must keep the fingerprint they share in the frozen sibling table; loop-carried found-flags must be assigned in every iteration before they are tested; multi-valued operands are enumerated as a mixed-radix number. That the shared skeleton is the documented semantics is not decided (no oracle without executing).",
+ "Trusted: the sibling table checker/jp_siblings.txt was generated from the pinned tree (classes of >=2 cells with equal fingerprints) - a slip present in every copy is invisible; a behaviour-preserving rewrite of a single copy would be reported.",
+ "static analysis: clone-cell extraction via type switches, normalised index-arithmetic fingerprints, sibling class comparison; definite-assignment lint for loop-carried flags",
+ "DESIGN.md §3 Engine B, §4 C05")
+claim("C11",
+ "Static decision of sibling clauses across evaluators and representations: Get, FirstFound, Has, GetNodes and FirstNode cells keep the index-selection fingerprints they share across containers and across the evaluators written as copies of each other (Has/FirstFound, Get/GetNodes, FirstFound/FirstNode); found-flags in Locate/Walk style loops are assigned per iteration. Correctness of the shared skeleton, reflection lookup and normalised path content are not decided.",
+ "Trusted: as C05.",
+ "static analysis: sibling class comparison of normalised index-arithmetic fingerprints across evaluators; definite-assignment lint",
+ "DESIGN.md §3 Engine B, §4 C11")
+claim("C13",
+ "Static decision of sibling clauses of the mutators: set and modify cells keep the index-selection fingerprints (bounds normalisation, guards, loop bounds, the labelled break that stops the *One forms) they share across []any, gen.Array and Indexed / map, gen.Object, Keyed. The frame condition on untouched data and the structure Set creates are not decided. Known by reading, not reported by a rule: modify/remove treat the slice end bound as inclusive (pinned by jp/remove_test.go).",
+ "Trusted: as C05.",
+ "static analysis: sibling class comparison of normalised index-arithmetic fingerprints of the mutator cells",
+ "DESIGN.md §3 Engine B, §4 C13")
